@@ -379,8 +379,8 @@ def mfx_stat(Y, V1, X, column, n_iter=5, return_t=True,
         output += (np.sqrt(fstat) * sign,)
     if return_f:
         output += (fstat,)
-    if return_var:
-        output += (model_1.V2,)
     if return_effect:
         output += (model_1.beta_[column],)
+    if return_var:
+        output += (model_1.V2,)
     return output
